@@ -321,6 +321,47 @@ theorem minimiseTable_failure (T : List Entry) (t : Nat) (methods : List Method)
       | fuel => exact Or.inr rfl
       | minFailed a b => exact absurd rfl (hne a b)
 
+/-- the `for f in methods` loop: the reported size is the smallest of the start value and the
+sizes reported by the methods, all of which failed -/
+theorem tryLoop_best (T : List Entry) (t : Nat) (ms : List Method) (b0 best : Nat) (t0 : Nat)
+    (h : tryLoop T t ms b0 = .error (.minFailed t0 best)) :
+    t0 = t ∧ best ≤ b0 ∧
+    (∀ f ∈ ms, ∃ t' n, runMethod f T (some t) = .error (.minFailed t' n) ∧ best ≤ n) ∧
+    (best = b0 ∨ ∃ f ∈ ms, ∃ t', runMethod f T (some t) = .error (.minFailed t' best)) := by
+  induction ms generalizing b0 with
+  | nil => simp only [tryLoop] at h; cases h; exact ⟨rfl, Nat.le_refl _, by simp, Or.inl rfl⟩
+  | cons f rest ih =>
+    simp only [tryLoop] at h
+    split at h
+    · cases h
+    · rename_i t' final hf
+      obtain ⟨h0, h1, h2, h3⟩ := ih _ h
+      refine ⟨h0, ?_, ?_, ?_⟩
+      · split at h1 <;> omega
+      · intro g hg
+        rcases List.mem_cons.mp hg with rfl | hg
+        · exact ⟨t', final, hf, by split at h1 <;> omega⟩
+        · exact h2 g hg
+      · rcases h3 with h3 | ⟨g, hg, t'', h3⟩
+        · by_cases hlt : final < b0
+          · rw [if_pos hlt] at h3
+            right; exact ⟨f, by simp, t', by rw [h3]; exact hf⟩
+          · rw [if_neg hlt] at h3; left; exact h3
+        · right; exact ⟨g, by simp [hg], t'', h3⟩
+    · rename_i e' hne _
+      cases h
+      exact absurd rfl (hne _ _)
+
+/-- **minimiseTable_best.** When the front end fails for a target it reports the best size
+reached: every method (the identity included) failed with a size at least `best`, and `best` is
+the table's own length or the size one of the methods reported. -/
+theorem minimiseTable_best (T : List Entry) (t t0 best : Nat) (methods : List Method)
+    (h : minimiseTable T (some t) methods = .error (.minFailed t0 best)) :
+    t0 = t ∧ best ≤ T.length ∧
+    (∀ f ∈ Method.identity :: methods, ∃ t' n, runMethod f T (some t) = .error (.minFailed t' n) ∧ best ≤ n) ∧
+    (best = T.length ∨ ∃ f ∈ Method.identity :: methods, ∃ t', runMethod f T (some t) = .error (.minFailed t' best)) :=
+  tryLoop_best T t _ _ best t0 h
+
 /-- **minimiseTables_equiv.** `minimise_tables`: every chip's table is minimised by
 `minimise_table` with that chip's target; the result holds exactly the non-empty results (an
 empty result means every matched key is default-routed, and the chip gets no table). -/
